@@ -23,7 +23,8 @@ SPEC = {
     "driver": "drv_c05",
     "harness": "c05",
     "race": True,
-    "theorems": ["C05_linearizable", "C05_linearizable_open", "C05_finished_complete", "C05_iterate_snapshot",
+    "theorems": ["C05_linearizable", "C05_linearizable_open", "C05_linearizable_close", "C05_checker_complete_on_model_partial",
+                 "C05_lin_points_in_window", "C05_finished_complete", "C05_iterate_snapshot",
                  "C05_well_locked", "C05_locks_exclusive", "C05_map_access_only_at_eff", "C05_deadlock_free",
                  "C05_code_well_bracketed", "C05_effects_are_C04_spec", "C05_commit_effects_are_C04_spec",
                  "C05_checker_sound", "C05_skeleton_get", "C05_skeleton_has", "C05_skeleton_set", "C05_skeleton_delete",
@@ -47,27 +48,32 @@ SPEC = {
         "concurrent Close flushkv.Set can apply the write and still return ErrStoreClosed (Flush fails); histories with Close "
         "are therefore generated without flushkv",
         "an operation that loaded the flag before a concurrent Close still takes effect afterwards (as in the code): the ghost "
-        "linearisation is sequential w.r.t. the specification in which a call fails with ErrStoreClosed iff it saw the flag set "
-        "(seqOk); it coincides with the C04 specification on a store nobody closes (C05_linearizable_open), and recorded "
-        "histories containing Close are decided against the full C04 specification by the checker",
+        "linearisation in trace order is sequential w.r.t. the specification in which a call fails with ErrStoreClosed iff it saw "
+        "the flag set (seqOk); C05_linearizable_close proves that the recorded history of every trace is nevertheless linearizable "
+        "w.r.t. the full C04 contract with Close (the straddling calls are moved before the Close point; they were invoked before it)",
+        "flushkv is not part of the protocol model; its mutators run the wrapped mutation and then Flush(): a Close in between makes "
+        "the call answer ErrStoreClosed although the mutation took effect (known finding, exhibited by the forced-schedule scenario)",
     ],
     "manifest": {
         "text": "Theorems over every reachable configuration of the protocol model, for every number of goroutines, every scripts, "
                 "every schedule: the ghost linearisation (appended at the single atomic map access of each call / each write of a "
                 "Commit) is a sequential execution of the C04 ordered-map specification producing exactly the returned answers, "
                 "every linearisation point lies between its call's invocation and response and determines the response "
-                "(C05_linearizable, C05_linearizable_open, C05_finished_complete); Iterate reports the range scan of one map state "
+                "(C05_linearizable, C05_linearizable_open, C05_finished_complete, C05_lin_points_in_window); the recorded history of every "
+                "trace is linearizable w.r.t. the full C04 contract including Close, and the checker's verified validator accepts it "
+                "(C05_linearizable_close, C05_checker_complete_on_model_partial - partial: the unverified search is not proved to find "
+                "the witness); Iterate reports the range scan of one map state "
                 "(C05_iterate_snapshot); every map access happens under the map lock, write accesses exclusively (C05_well_locked, "
                 "C05_locks_exclusive, C05_map_access_only_at_eff); no reachable deadlock with writer-preferring RWMutexes "
                 "(C05_deadlock_free, from rank order batch<view<map, C05_code_well_bracketed); the accesses are the C04 "
                 "specification's steps (C05_effects_are_C04_spec, C05_commit_effects_are_C04_spec); the history checker is sound "
                 "(C05_checker_sound). Tie: regenerated lock skeletons of mapdb.go/synced_map.go as proof obligations "
                 "(C05_skeleton_*), and stress + forced-schedule histories of the real packages (2..16 goroutines, shared views of "
-                "overlapping realms, atomic logical clock) decided by the Lean checker and, independently, by a Go checker; "
+                "overlapping realms, atomic logical clock, Close in a quarter of them) decided by the Lean checker and, independently, by a Go checker; "
                 "watchdog for hangs; thorough tier under -race.",
         "note": "Data-race freedom is proved for the model's lock discipline only; for the real code it is supported by the race "
-                "detector runs. Close is linearised at the flag swap; calls straddling a Close keep their effect (documented in "
-                "design/C05.md). Trusted: Lean kernel, the protocol model (tied by skeleton obligations + histories), RWMutex semantics.",
+                "detector runs. Known finding: behind flushkv a mutation racing Close can take effect and still answer ErrStoreClosed "
+                "(forced-schedule scenario, design/C05.md). Trusted: Lean kernel, the protocol model (tied by skeleton obligations + histories), RWMutex semantics.",
         "technique": "Lean 4 invariant proofs over an interleaving model with arbitrary thread pool (ghost linearisation, lock "
                      "counting invariants, rank-based deadlock freedom) + verified-witness linearizability checking of recorded histories",
     },
